@@ -47,6 +47,12 @@ def _accept(body):
     return b is not None, err
 
 
+def _accept_full(text):
+    """a whole profile as aa-log --rules prints it (header included)"""
+    b, err = dfax.compile_text(LOGPRE + text, C.UPSTREAM)
+    return b is not None, err
+
+
 def _distinct(pair):
     a, _ = dfax.compile_text(stub(pair[0]), C.UPSTREAM)
     b, _ = dfax.compile_text(stub(pair[1]), C.UPSTREAM)
@@ -102,8 +108,20 @@ def run(tier):
         for text in c['out'].values():
             body = text[text.index('{') + 1:text.rindex('}')]
             stubs.setdefault(body, c['id'])
+    fulls = {}
+    for c in logcases:
+        if any(x['class'] in AA4 for x in c['records']):
+            continue
+        for text in c['out'].values():
+            hdr = text[:text.index('{')].strip()
+            fulls.setdefault(hdr, (text, c['id']))           # one profile per distinct header is enough for the header
     with ProcessPoolExecutor(C.NPROC) as pool:
         acc = list(pool.map(_accept, list(stubs), chunksize=16))
+        facc = list(pool.map(_accept_full, [t for t, _ in fulls.values()], chunksize=4))
+    for (hdr, (text, cid)), (accepted, err) in zip(fulls.items(), facc):
+        if not accepted and stubs.get(text[text.index('{') + 1:text.rindex('}')]) is not None and _accept(text[text.index('{') + 1:text.rindex('}')])[0]:
+            fnd.report('log-profile-header-rejected', 'apparmor_parser accepts the rules but rejects the profile `aa-log --rules` prints around them (%s): `%s`' % (err, hdr), {'case': cid, 'profile': text})
+    ev.add(profiles_from_logs_parsed=len(fulls))
     for (body, cid), (accepted, err) in zip(stubs.items(), acc):
         if not accepted:
             fnd.report('log-rule-rejected err=%s' % err.split(':')[-1].strip()[:70], 'apparmor_parser rejects a rule `aa-log --rules` prints (%s): %s' % (err, body.strip()), {'case': cid, 'rules': body})
